@@ -28,6 +28,7 @@ type replayValue struct {
 }
 
 type replayFile struct {
+	Retries int           `json:"retries,omitempty"`
 	Harness string        `json:"harness"`
 	Values  []replayValue `json:"values"`
 }
@@ -288,14 +289,31 @@ func RunReplays(t tlog, harnesses map[string]func()) {
 			continue
 		}
 		res := nativeResult{Replay: p}
-		func() {
-			defer func() {
-				if r := recover(); r != nil {
-					res.Panic = fmt.Sprint(r)
+		// A counterexample that depends on Go's (randomised) map iteration order cannot be forced
+		// natively; such replay files ask for repeated attempts until the failure shows.
+		attempts := 1
+		if rp.Retries > 0 {
+			attempts = rp.Retries
+		}
+		for a := 0; a < attempts; a++ {
+			if a > 0 {
+				if err := reset(p); err != nil {
+					break
 				}
+			}
+			res.Panic = ""
+			func() {
+				defer func() {
+					if r := recover(); r != nil {
+						res.Panic = fmt.Sprint(r)
+					}
+				}()
+				h()
 			}()
-			h()
-		}()
+			if len(Failed) > 0 || len(KnownHit) > 0 || res.Panic != "" {
+				break
+			}
+		}
 		res.Bad, res.Failed, res.Known, res.Obs = BadReplay, Failed, KnownHit, observed
 		b, _ := json.Marshal(res)
 		out.Write(append(b, '\n'))
